@@ -3,7 +3,8 @@
    events (configFunc / factory.New / PacketConn.Close / connectedFunc), call starts and returns,
    kills and Close are observed; the sections that emit nothing (Enter on an existing client, Do,
    Leave that closes nothing) are hidden and searched for: the acceptor keeps the set of all model
-   states compatible with the log so far.  Not part of any theorem. *)
+   states compatible with the log so far.  Soundness of [accepts] for the LTS is proved in
+   proof/C16_Accept.v (props/C16.v, the C16_accepted theorems); completeness is tested there on all bounded runs. *)
 From Coq Require Import List Arith Bool.
 Import ListNotations.
 From Hy Require Import gen.ParamsC16 model.C16_Reconnect lib.Harness.
@@ -70,7 +71,8 @@ Definition st_eqb (a b : st) : bool :=
    and for every goroutine what its call in flight will eventually return (a pruning hint taken
    from the log; the return itself is still checked at ORet).
 
-   The hidden sections are searched in a normal form (sound and complete for acceptance):
+   The hidden sections are searched in a normal form (soundness: proof/C16_Accept.v accepts_sound;
+   completeness: argued below, tested by acceptor_complete_bounded):
    - a hidden Enter only reads rc.closed / rc.client and writes the pc, so only its position between
      two observed changes of the shared state matters: it is explored in the closure;
    - liveness of a client only decreases, so a Do that needs a live client (WOk, WStreamLimit) is
